@@ -10,17 +10,28 @@ package nom
 //@   ensures len(ab.DescendantBlocks) == 0 ==> result.Hash == ab.PreviousHash && result.Height == (ab.Height + pow2(64) - 1) % pow2(64)
 //@   modifies nothing
 
-// The account-block hash is SHA3-256 over the concatenation of the covered fields; the hash function itself stays
-// uninterpreted. abHashUF lists exactly the fields the pre-image is built from (see property C13); the descendant and data
-// digests enter through descHash/bytesval.
-//@ spec abHashUF(version int, chainId int, blockType int, prev arr, height int, maHash arr, maHeight int, address arr, toAddress arr, amount int, zts arr, from arr, desc int, data int, fused int, difficulty int, nonce arr) arr
+// The account-block hash (property C13) is SHA3-256 over the fixed-width concatenation, in this order, of: version, chain
+// identifier, block type (8-byte big endian each), previous hash, height, acknowledged momentum (hash || height), address,
+// to-address, amount (32 bytes), token standard, from-block hash, digest of the descendants' hashes, digest of the data,
+// fused plasma, difficulty, nonce. sha3v is the (uninterpreted) digest as a function of the abstract input byte string;
+// descHash is the descendants digest, a function of the block object here.
+// NOT covered by the hash, by this definition: Hash itself, BasePlasma, TotalPlasma, ChangesHash, PublicKey, Signature, producer.
+//@ spec sha3v(v int) arr
 //@ spec descHash(blockId int) int
-//@ spec abHashOf(b *AccountBlock) arr = abHashUF(b.Version, b.ChainIdentifier, b.BlockType, b.PreviousHash, b.Height, b.MomentumAcknowledged.Hash, b.MomentumAcknowledged.Height, b.Address, b.ToAddress, val(b.Amount), b.TokenStandard, b.FromBlockHash, descHash(int(b)), bytesval(b.Data), b.FusedPlasma, b.Difficulty, b.Nonce.Data)
+//@ spec abHashUF(version int, chainId int, blockType int, prev arr, height int, maHash arr, maHeight int, address arr, toAddress arr, amount int, zts arr, from arr, desc int, data int, fused int, difficulty int, nonce arr) arr = sha3v(bcat(common.be64enc(version), bcat(common.be64enc(chainId), bcat(common.be64enc(blockType), bcat(arrbytes(prev, 32), bcat(common.be64enc(height), bcat(bcat(arrbytes(maHash, 32), common.be64enc(maHeight)), bcat(arrbytes(address, 20), bcat(arrbytes(toAddress, 20), bcat(common.big32enc(amount), bcat(arrbytes(zts, 10), bcat(arrbytes(from, 32), bcat(desc, bcat(arrbytes(sha3v(data), 32), bcat(common.be64enc(fused), bcat(common.be64enc(difficulty), arrbytes(nonce, 8)))))))))))))))))
+//@ spec abHashOf(b *AccountBlock) arr = abHashUF(b.Version, b.ChainIdentifier, b.BlockType, b.PreviousHash, b.Height, b.MomentumAcknowledged.Hash, b.MomentumAcknowledged.Height, b.Address, b.ToAddress, ite(b.Amount == nil, 0, val(b.Amount)), b.TokenStandard, b.FromBlockHash, descHash(int(b)), bytesval(b.Data), b.FusedPlasma, b.Difficulty, b.Nonce.Data)
 
-//@ func AccountBlock.ComputeHash(ab)
+//@ func AccountBlock.DescendantBlocksHash(ab)
 //@   trusted
 //@   requires ab != nil
-//@   ensures result == abHashOf(ab)
+//@   ensures arrbytes(result, 32) == descHash(int(ab))
+//@   modifies nothing
+
+// Proved against the body: the pre-image the code assembles is exactly the one above (a dropped, added, reordered or
+// re-encoded field fails this obligation).
+//@ func AccountBlock.ComputeHash(ab)
+//@   requires ab != nil
+//@   ensures[covers-exactly-the-listed-fields] result == abHashOf(ab)
 //@   modifies nothing
 
 // ---- C20: the momentum content is sorted by a comparator that orders headers by their 60-byte image -------------------------
